@@ -125,6 +125,16 @@ func (m mergeRunner) Run(c *Ctx, i int) CaseResult {
 				sigStats[feat]++
 			}
 		}
+		// L2: merge.go's merging of directive locations against Ml.mergeLocs (3 pairs per case)
+		for k := 0; k < 3; k++ {
+			lf, feat := MergeLocsCorr(c, c.Rand(i*100+k+63000000))
+			if len(lf) > 0 {
+				return CaseResult{ID: fmt.Sprintf("gen:%d", i), Nontrivial: true, Fails: lf}
+			}
+			if feat != "" {
+				sigStats[feat]++
+			}
+		}
 		// L2: merge.go's comparison of applied directive lists against Md.listsEqual (4 pairs per case)
 		for k := 0; k < 4; k++ {
 			df, feat := MergeDirsCorr(c, c.Rand(i*100+k+62000000))
